@@ -26,6 +26,9 @@ Definition is_LE (m : PositionMatch) := PositionMatch_beq m PositionMatch_LessOr
 Definition deref_tick (ticks : list F64) (i : Z) : res F64 :=
   if (0 <=? i) && (i <? zlen ticks) then Ok (tick_at ticks i) else UB "dereference of end()".
 
+(** [*it] for an iterator of the tick vector, as the translated code names it *)
+Definition iter_deref := deref_tick.
+
 Definition getIndex (position : F64) (ticks : list F64) (matching : PositionMatch) : res (option Z) :=
   let len := zlen ticks in
   if len =? 0 then Ok None
